@@ -169,6 +169,7 @@ type Walker struct {
 	closures    map[types.Object]*ast.FuncLit // local variables bound once to a function literal
 	closureOff  map[types.Object]bool         // … and then reassigned: not resolved
 	closureDep  int
+	helperLits  map[*ast.FuncDecl]*ast.FuncLit
 	MaxPaths    int
 	Inline      func(caller, callee *FuncInfo) bool
 	Unsupported map[string]string // function name -> reason
@@ -187,6 +188,9 @@ type LitRoot struct {
 	Lit   *ast.FuncLit
 	Owner *FuncInfo
 	IsGo  bool
+	// Bind names the parameters of a goroutine that was a literal and became `go helper(a, b)`: each parameter
+	// stands for the caller's variable it is given, as the literal's free variable did
+	Bind map[types.Object]string
 }
 
 // NewWalker creates a walker with the default inlining policy: same package, depth <= 4.
@@ -234,6 +238,9 @@ func (w *Walker) EnumerateLit(lr *LitRoot) ([]*Path, error) {
 	st.stack = []*FuncInfo{lr.Owner}
 	st.defers = [][]Event{nil}
 	w.bindRootParams(nil, lr.Lit.Type, lr.Owner.Pkg.TypesInfo, st)
+	for o, v := range lr.Bind {
+		st.env[o] = v
+	}
 	c := &ctl{fn: lr.Owner, info: lr.Owner.Pkg.TypesInfo}
 	c.named = namedResults(lr.Lit.Type, lr.Owner.Pkg.TypesInfo)
 	c.ret = func(s *pstate, res []string) { w.finish(s, lr.Owner, res, lr.Lit.End()) }
@@ -505,6 +512,38 @@ func (w *Walker) stmt(s ast.Stmt, st *pstate, c *ctl, k func(*pstate)) {
 	case *ast.GoStmt:
 		if fl, ok := ast.Unparen(x.Call.Fun).(*ast.FuncLit); ok {
 			w.noteLit(fl, c.fn, true)
+		} else if target := w.P.Funcs[w.calleeOf(x.Call, c)]; target != nil && IsNewHelper(target) && target.Pkg == c.fn.Pkg && target.Decl.Recv == nil {
+			// `go helper(a, b)` with a helper the tables have never seen: the goroutine literal it replaced
+			bind := map[types.Object]string{}
+			ok, i := true, 0
+			for _, f := range target.Decl.Type.Params.List {
+				for _, n := range f.Names {
+					if i < len(x.Call.Args) {
+						if id, isID := ast.Unparen(x.Call.Args[i]).(*ast.Ident); isID {
+							if o := target.Pkg.TypesInfo.Defs[n]; o != nil {
+								bind[o] = "^" + id.Name
+							}
+						} else {
+							ok = false
+						}
+					}
+					i++
+				}
+			}
+			if ok {
+				if w.helperLits == nil {
+					w.helperLits = map[*ast.FuncDecl]*ast.FuncLit{}
+				}
+				fl := w.helperLits[target.Decl]
+				if fl == nil {
+					fl = &ast.FuncLit{Type: target.Decl.Type, Body: target.Decl.Body}
+					w.helperLits[target.Decl] = fl
+				}
+				if !w.seenLit[fl] {
+					w.seenLit[fl] = true
+					w.FuncLits = append(w.FuncLits, &LitRoot{Lit: fl, Owner: c.fn, IsGo: true, Bind: bind})
+				}
+			}
 		}
 		for _, a := range x.Call.Args {
 			w.evalCalls(a, st, c)
@@ -1913,12 +1952,12 @@ func onStack(stack []*FuncInfo, f *FuncInfo) bool {
 // returns nil: the typed-error constructors of onos-lib-go, fmt.Errorf, errors.New, status.Error(f).
 func constructedError(s string) bool {
 	in := s
-	if strings.HasPrefix(s, "err(") {
-		in = s[4:]
+	if strings.HasPrefix(s, "err(") && strings.HasSuffix(s, ")") {
+		in = s[4 : len(s)-1]
 	}
 	// errors.Status(e).Err() of a constructed typed error is the gRPC form of that error
-	if strings.HasPrefix(in, "{errors.Status(") && strings.HasSuffix(in, "}status.Status.Err())") {
-		return constructedError(in[len("{errors.Status(") : len(in)-len(")}status.Status.Err())")])
+	if strings.HasPrefix(in, "{errors.Status(") && strings.HasSuffix(in, ")}status.Status.Err()") {
+		return constructedError(in[len("{errors.Status(") : len(in)-len(")}status.Status.Err()")])
 	}
 	for _, p := range []string{"errors.New", "fmt.Errorf(", "status.Errorf(", "status.Error("} {
 		if strings.HasPrefix(in, p) {
